@@ -4,12 +4,13 @@
    and, by induction over the specification, for every nested field specification whose composites are tagged
    (TLV, any tag encoding that reads back: tag_rt_value, tag_rt_ber), positional, or carry a (fixed) bitmap of
    subfields with canonical decimal ids: C01_field_roundtrip.
-   and for whole messages (MTI, auto-expanding bitmap of 1..n blocks in Binary or Hex, data elements over any such
-   field specification): C01_message_roundtrip.
-   Not covered by a theorem: fixed (non-expanding) message bitmaps and track fields; these are tied to the library by
-   correspondence and exercised by the property oracle. *)
+   and for whole messages (MTI, bitmap in Binary or Hex - auto-expanding with 1..n blocks, or fixed -, data elements over
+   any such field specification): C01_message_roundtrip, C01_message_repack.
+   Track2 fields: C01_track2_roundtrip; Track3: C01_track3_parse_render. Track1 is modelled (Model/Track.v), tied to the library by
+   correspondence and exercised by the property oracle, without a theorem. *)
 From Iso Require Import Model.Base Model.Padding Model.Encoding Model.Prefix Model.Bitmap Model.Spec Model.Field Model.Message
      Proofs.BaseLemmas Proofs.PrefixProofs Proofs.FieldProofs Proofs.CompositeProofs Proofs.MessageRoundtrip Proofs.CoherenceCheck Gen.ShippedSpecs.
+From Iso Require Import Model.Describe Model.Track Proofs.EncodingProofs Proofs.TrackProofs.
 
 Theorem C01_prim_roundtrip : forall p st b, coherent_pspec p -> prim_in_domain p st -> prim_pack p st = Ok b ->
   forall st0 rest, prim_unpack p st0 (b ++ rest) = (st, UOk (zlen b)).
@@ -62,6 +63,27 @@ Proof.
   destruct (spec_of_string t) as [MS|]; [|discriminate]. exists MS. split; [reflexivity|apply msg_coherentb_sound; exact H].
 Qed.
 Print Assumptions C01_shipped_specs_coherent.
+
+(* Track2 fields (the model of field/track2.go: rendering, the regular expression as a deterministic matcher, trimming,
+   the expiry date check): Pack then Unpack into an object that held anything returns the components and consumes
+   exactly the packed bytes; identical re-pack. t2_dom: PAN of 1..19 digits, separator = or D, a valid YYMM, three digits
+   of service code, discretionary data without ? and without white space at its ends (C18_ex_track2 is an instance) *)
+Theorem C01_track2_roundtrip : forall p t b t0 rest, coherent_pspec p -> t2_dom t ->
+  pad_ok (ps_pad p) (t_render T2 t) = true -> enc_dom (ps_enc p) (pad (ps_pad p) (t_render T2 t) (ps_len p)) = true ->
+  zlen (pad (ps_pad p) (t_render T2 t) (ps_len p)) <= max_int ->
+  t_pack T2 p t = Ok b ->
+  let t' := {| tk_fixed := tk_fixed t0; tk_fc := []; tk_pan := tk_pan t; tk_sep := tk_sep t; tk_name := []; tk_exp := tk_exp t; tk_svc := tk_svc t; tk_dd := tk_dd t |} in
+  t_unpack T2 p t0 (b ++ rest) = (t', Ok (zlen b)) /\ t_pack T2 p t' = Ok b.
+Proof. exact track2_roundtrip. Qed.
+Print Assumptions C01_track2_roundtrip.
+
+(* Track3: parsing the rendered track returns the components (t3_dom: two digits of format code, a PAN of 1..19 digits,
+   discretionary data without ? , without white space at its ends and other than the single character =) *)
+Theorem C01_track3_parse_render : forall t t0, t3_dom t ->
+  t_parse T3 t0 (t_render T3 t) =
+  ({| tk_fixed := tk_fixed t0; tk_fc := tk_fc t; tk_pan := tk_pan t; tk_sep := []; tk_name := []; tk_exp := None; tk_svc := []; tk_dd := tk_dd t |}, Ok tt).
+Proof. exact track3_parse_render. Qed.
+Print Assumptions C01_track3_parse_render.
 
 (* non-vacuity, and instances of the composite / message level by computation *)
 Definition p_ex : pspec := {| ps_kind := KString; ps_enc := EncBCD; ps_pref := PVar PfBinary 5; ps_len := 300; ps_pad := PadNone; ps_packer := PkDefault |}.
